@@ -107,6 +107,15 @@ def one_history(res, rng, files, api):
     # a third of the histories hand over the SAME stream object every time, emptied and refilled with the next dump (a
     # scratch buffer / a temp file that is rewritten): what an object held before says nothing about what it holds now
     refilled = io.BytesIO() if len(files) > 1 and rng.random() < 0.34 else None
+    # half of the 'dicts' histories keep ONE container-parser object for all their parses (the other half build one per
+    # parse over the same two dicts): the dicts belong to the caller and to every other object built over them, so what
+    # the object itself read last says nothing about what they hold now
+    kept = KdBufParser(tp, pn) if api == 'dicts' and rng.random() < 0.5 else None
+    if kept is not None:
+        res.count('histories_on_one_kept_container_parser')
+        if len(files) > 1 and rng.random() < 0.5:
+            # ... and the same dump comes round again later in the history (kevents, then traces, then a reload)
+            files = list(files) + [files[rng.randrange(len(files) - 1)]]
 
     def open_stream(data):
         if refilled is None:
@@ -125,6 +134,14 @@ def one_history(res, rng, files, api):
             target = (top.threads_pids, top.pids_names) if api == 'top' else (tp, pn)
             target[0][rng.choice((1, 2, 77, rng.getrandbits(40)))] = rng.randrange(1, 50)
             target[1][rng.randrange(1, 50)] = 'written-between-parses'
+            if api == 'dicts' and rng.random() < 0.4:
+                # ... or by ANOTHER container parser built over the same two dicts, reading another dump
+                other = gen.gen_v2(rng, first_nonzero=True, m=1, n=2)
+                try:
+                    list(KdBufParser(tp, pn).parse(io.BytesIO(other['data'])))
+                except Exception:
+                    pass
+                res.count('tables_rewritten_by_another_parser_between_parses')
             res.count('tables_dirtied_between_parses')
         if i and api == 'top' and rng.random() < 0.4:
             # ... or REPLACES one of the two table attributes of the front end by another dict (only one of them, or
@@ -151,7 +168,7 @@ def one_history(res, rng, files, api):
             tables = (tp, pn)
             res.count('parses_through_the_version_entry_points')
         else:
-            events, exc = drive(lambda: (e for e in KdBufParser(tp, pn).parse(open_stream(f['data']))
+            events, exc = drive(lambda: (e for e in (kept or KdBufParser(tp, pn)).parse(open_stream(f['data']))
                                          if hasattr(e, 'debugid')))
             tables = (tp, pn)
         if f['kind'] == 'v2':
